@@ -2,7 +2,9 @@ package main
 
 import (
 	"fmt"
+	"strings"
 	"sync"
+	"time"
 
 	"github.com/tjfoc/gmsm/gmtls"
 
@@ -249,6 +251,10 @@ func (t c15TLSTarget) cfgs(pki *tlsPKI, rr *mon.RNG) (*gmtls.Config, *gmtls.Conf
 	if t.auth {
 		scfg.ClientAuth, scfg.ClientCAs = gmtls.RequireAndVerifyClientCert, pki.pool
 		ccfg.Certificates = []gmtls.Certificate{pki.cliSig}
+		if t.ver < gmtls.VersionTLS12 {
+			scfg.ClientCAs = pki.gmStdPool
+			ccfg.Certificates = []gmtls.Certificate{pki.rsaCert}
+		}
 	}
 	return ccfg, scfg
 }
@@ -262,6 +268,9 @@ func runC15TLS(c *Ctx, pki *tlsPKI) {
 		{name: "tls12-rsa-cbc", suite: gmtls.TLS_RSA_WITH_AES_128_CBC_SHA, ver: gmtls.VersionTLS12, cert: "rsa"},
 		{name: "tls10-ecdhe-rsa-cbc", suite: gmtls.TLS_ECDHE_RSA_WITH_AES_256_CBC_SHA, ver: gmtls.VersionTLS10, cert: "rsa"},
 		{name: "tls11-rsa-cbc", suite: gmtls.TLS_RSA_WITH_AES_128_CBC_SHA, ver: gmtls.VersionTLS11, cert: "rsa"},
+		{name: "ssl30-rsa-cbc", suite: gmtls.TLS_RSA_WITH_AES_128_CBC_SHA, ver: gmtls.VersionSSL30, cert: "rsa"},
+		{name: "ssl30-rsa-cbc+clientauth", suite: gmtls.TLS_RSA_WITH_AES_128_CBC_SHA, ver: gmtls.VersionSSL30, cert: "rsa", auth: true},
+		{name: "tls10-rsa-cbc+clientauth", suite: gmtls.TLS_RSA_WITH_AES_128_CBC_SHA, ver: gmtls.VersionTLS10, cert: "rsa", auth: true},
 		{name: "tls12-ecdhe-rsa-gcm+client-renegotiation-once", suite: gmtls.TLS_ECDHE_RSA_WITH_AES_128_GCM_SHA256, ver: gmtls.VersionTLS12, cert: "rsa", reneg: gmtls.RenegotiateOnceAsClient},
 		{name: "tls10-ecdhe-rsa-cbc+client-renegotiation-freely", suite: gmtls.TLS_ECDHE_RSA_WITH_AES_256_CBC_SHA, ver: gmtls.VersionTLS10, cert: "rsa", reneg: gmtls.RenegotiateFreelyAsClient},
 		{name: "auto-server/tls12-ecdhe-rsa-gcm", suite: gmtls.TLS_ECDHE_RSA_WITH_AES_128_GCM_SHA256, ver: gmtls.VersionTLS12, cert: "rsa", auto: true},
@@ -400,5 +409,145 @@ func runC15TLS(c *Ctx, pki *tlsPKI) {
 				fmt.Sprintf("%s %s: the %s saw a handshake stream its peer did not send (or a forbidden record) and reports the handshake as complete", j.t.name, j.dev, under), w)
 		}
 		rep.Eval(cls)
+	})
+}
+
+// ---- blind scripted client against standard-TLS servers: it does not parse or verify anything the server says; after
+// its ClientHello (any version 0x0300..0x0303 — the gmtls *client* refuses SSL 3.0 but the server still speaks it) it
+// waits for the server's flight to end and sends a syntactically plausible second flight made of a certificate,
+// key-exchange bytes, a CertificateVerify, ChangeCipherSpec and a Finished that cannot be right. The server must answer
+// with an error: never complete, never panic, always return.
+func runC15Blind(c *Ctx, pki *tlsPKI) {
+	rep := c.Rep
+	type srv struct {
+		name string
+		auto bool
+		auth gmtls.ClientAuthType
+	}
+	var srvs []srv
+	for _, a := range []gmtls.ClientAuthType{gmtls.NoClientCert, gmtls.RequestClientCert, gmtls.RequireAnyClientCert, gmtls.RequireAndVerifyClientCert} {
+		srvs = append(srvs, srv{"tls-server/" + authName(a), false, a}, srv{"auto-server/" + authName(a), true, a})
+	}
+	type job struct {
+		s       srv
+		ver     uint16
+		suite   uint16
+		variant int
+	}
+	var jobs []job
+	for _, s := range srvs {
+		for _, v := range []uint16{0x0300, 0x0301, 0x0302, 0x0303} {
+			for _, su := range []uint16{0x002f, 0xc014, 0xc02f, 0x0035, 0x009c} {
+				for variant := 0; variant < 5; variant++ {
+					jobs = append(jobs, job{s, v, su, variant})
+				}
+			}
+		}
+	}
+	rep.Count("blind_client_scripts", int64(len(jobs)))
+	Par(len(jobs), func(i int) {
+		j := jobs[i]
+		r := c.Rng(fmt.Sprintf("blind%d", i))
+		t := c15TLSTarget{suite: j.suite, ver: 0, cert: "rsa", auto: j.s.auto}
+		_, scfg := t.cfgs(pki, r)
+		scfg.CipherSuites = nil // the server's defaults
+		scfg.MinVersion, scfg.MaxVersion = 0, 0
+		scfg.ClientAuth = j.s.auth
+		scfg.ClientCAs = pki.gmStdPool
+		cm, sm := newMemPair(&wireLog{}, nil)
+		var serr error
+		var spanic *mon.PanicInfo
+		done := make(chan struct{})
+		go func() {
+			defer close(done)
+			sc := gmtls.Server(sm, scfg)
+			spanic = mon.Guard(func() { serr = sc.Handshake() })
+			sm.Close()
+		}()
+		ver := [2]byte{byte(j.ver >> 8), byte(j.ver)}
+		ch := (&ref.ClientHello{Version: j.ver, Random: r.Bytes(32), Suites: []uint16{j.suite, 0x00ff}, Compression: []byte{0}}).Marshal()
+		cm.Write(wrapRec(ref.RecHandshake, [2]byte{3, 1}, ch))
+		// wait for the end of the server's flight (ServerHelloDone), an alert, or the end of the stream
+		var acc []byte
+		buf := make([]byte, 4096)
+		sawDone := false
+	read:
+		for !sawDone {
+			n, err := cm.Read(buf)
+			acc = append(acc, buf[:n]...)
+			recs, _ := ref.SplitRecords(acc)
+			var hs []byte
+			for _, rc := range recs {
+				if rc.Type == ref.RecAlert {
+					break read
+				}
+				if rc.Type == ref.RecHandshake {
+					hs = append(hs, rc.Body...)
+				}
+			}
+			if msgs, ok := splitHS(hs); ok {
+				for _, m := range msgs {
+					if m[0] == ref.HSServerHelloDone {
+						sawDone = true
+					}
+				}
+			}
+			if err != nil {
+				break
+			}
+		}
+		if sawDone {
+			hs := func(b []byte) { cm.Write(wrapRec(ref.RecHandshake, ver, b)) }
+			cert := ref.MarshalCertificate([][]byte{pki.rsaCert.Certificate[0]})
+			if j.ver == 0x0300 && j.variant == 1 {
+				cert = nil
+			}
+			ckx := ref.HSMsg(ref.HSClientKeyExchange, append([]byte{1, 0}, r.Bytes(256)...)) // RSA-style: 2-byte length + 256 bytes
+			switch j.variant {
+			case 1:
+				cert = ref.MarshalCertificate(nil)
+			case 2:
+				ckx = ref.HSMsg(ref.HSClientKeyExchange, append([]byte{65, 4}, r.Bytes(64)...)) // ECDHE-style point
+			case 3:
+				ckx = ref.HSMsg(ref.HSClientKeyExchange, r.Bytes(256)) // SSL 3.0 style: no length prefix
+			}
+			sig := r.Bytes(256)
+			cv := ref.HSMsg(ref.HSCertificateVerify, append([]byte{1, 0}, sig...))
+			if j.ver == 0x0303 {
+				cv = ref.HSMsg(ref.HSCertificateVerify, append([]byte{4, 1, 1, 0}, sig...)) // sha256/rsa
+			}
+			if cert != nil {
+				hs(cert)
+			}
+			hs(ckx)
+			if j.variant != 4 {
+				hs(cv)
+			}
+			cm.Write(wrapRec(ref.RecCCS, ver, []byte{1}))
+			hs(ref.HSMsg(ref.HSFinished, r.Bytes(12)))
+		}
+		cm.out.close() // the script is over: nothing more will come
+		// drain whatever the server still says so that it is never blocked on us (writes never block on these pipes anyway)
+		select {
+		case <-done:
+		case <-time.After(60 * time.Second):
+			rep.Violation("C15/Handshake/no-return-after-input-ended/blind-client/"+j.s.name, fmt.Sprintf("version %04x suite %04x variant %d", j.ver, j.suite, j.variant), nil)
+			cm.Close()
+			sm.Close()
+			<-done
+		}
+		cm.Close()
+		w := map[string]interface{}{"server": j.s.name, "client_hello_version": fmt.Sprintf("%04x", j.ver), "suite": fmt.Sprintf("%04x", j.suite), "second_flight_variant": j.variant, "reached_second_flight": sawDone, "server_error": errStr(serr)}
+		if spanic != nil {
+			rep.Violation(fmt.Sprintf("C15/Handshake/panic/blind-client/%s/ver=%04x/%s", strings.SplitN(j.s.name, "/", 2)[0], j.ver, spanic.Func), spanic.Value, w)
+		} else if serr == nil {
+			rep.Violation(fmt.Sprintf("C15/Handshake/completes-with-deviating-peer/blind-client/ver=%04x", j.ver), "a client that cannot know the keys completed a handshake", w)
+		}
+		cls := fmt.Sprintf("blind-client/%s/ver=%04x/suite=%04x/variant=%d/second-flight=%v", j.s.name, j.ver, j.suite, j.variant, sawDone)
+		if sawDone {
+			rep.Eval(cls)
+		} else {
+			rep.EvalTrivial(cls)
+		}
 	})
 }
